@@ -2,7 +2,7 @@
    requested, the run ends with addresses that keep co-live ranges disjoint, honour every range's alignment
    (LinearAlloc: the requested alignment itself) and stay below the reported total. *)
 From Coq Require Import ZArith List Bool Lia Permutation.
-From VV Require Import lib.PyInt model.Alloc proofs.AllocProofs proofs.AllocGreedyProofs proofs.AllocLinearProofs
+From VV Require Import lib.PyInt model.Alloc proofs.AllocProofs proofs.AllocAlignProofs proofs.AllocGreedyProofs proofs.AllocLinearProofs
   proofs.AllocHillProofs proofs.AllocHillSearchProofs proofs.AllocHillPeakProofs proofs.AllocHillWalkProofs.
 Import ListNotations.
 Open Scope Z_scope.
@@ -131,4 +131,28 @@ Proof.
       * intros r a Hin. apply In_nth_error in Hin. destruct Hin as [i Hi]. apply nth_error_combine in Hi. destruct Hi as [Hr Ha].
         destruct (Hal i r a Hr Ha). repeat split; auto. apply (Hub i r a Hr Ha).
       * intros C. lia.
+Qed.
+
+(* ---------- every alignment ever requested for a range is honoured ---------- *)
+Definition result_pairs (lrs : list lr) (res : alloc_result) : list (lr * Z) :=
+  match res with
+  | InOrder out _ => out
+  | ByIndex (Ok (addrs, _)) => combine lrs addrs
+  | _ => []
+  end.
+
+Lemma allocate_honours_every_request_lemma : forall (S : Type) (next : S -> Z * S) tag A lrs mi limit s,
+  0 < A -> Forall (d_wf A) lrs -> footprint_bound lrs <= 2 ^ 63 -> tag = 1 \/ tag = 2 \/ tag = 3 ->
+  forall r a, In (r, a) (result_pairs lrs (allocate S next tag A lrs mi limit s)) ->
+  forall first later q,
+    lr_align r = range_alignment first later -> div_chain (first :: later) -> In q (first :: later) -> (q | a).
+Proof.
+  intros S next tag A lrs mi limit s HA Hwf Hfb Htag r a Hin first later q Hal Hc Hq.
+  pose proof (allocate_ok_lemma S next tag A lrs mi limit s HA Hwf Hfb Htag) as H.
+  apply honours_every_request_lemma with first later; auto. rewrite <- Hal.
+  destruct (allocate S next tag A lrs mi limit s) as [[[addrs total]|c]|out m|]; cbn [result_pairs] in Hin.
+  - destruct H as (_ & [_ Hp] & _). apply (Hp r a Hin).
+  - destruct Hin.
+  - destruct H as (_ & [_ Hp]). apply (Hp r a Hin).
+  - destruct Hin.
 Qed.
